@@ -174,7 +174,17 @@ func (s *c14sStats) class(k string, in *c14sInst, x [c14sNC]bool) {
 
 // ---------- instance: real manager + model ----------
 
-type c14sCfg struct{ low, high int }
+type c14sCfg struct {
+	low, high int
+	decay     int // DecayFixed(decay) of the decaying tag; 0 = 5 (a value always reaches 0 exactly), 3 = overshoots (5 -> 2 -> -1)
+}
+
+func (c c14sCfg) decayBy() int {
+	if c.decay == 0 {
+		return 5
+	}
+	return c.decay
+}
 
 type c14sInst struct {
 	cfg     c14sCfg
@@ -197,7 +207,7 @@ type c14sInst struct {
 // has verified the prefix once on its first instance (the trim oracles stay on, the model needs their results).
 func c14sNew(cfg c14sCfg, st *c14sStats, prefix []c14sOp, verifyPrefix bool) *c14sInst {
 	in := &c14sInst{cfg: cfg, st: st, clk: clock.NewMock()}
-	in.m.low = cfg.low
+	in.m.low, in.m.decay = cfg.low, cfg.decayBy()
 	cm, err := NewConnManager(cfg.low, cfg.high, WithGracePeriod(c14sGrace), WithSilencePeriod(c14sStep), WithClock(in.clk),
 		DecayerConfig(&DecayerCfg{Resolution: c14sStep, Clock: in.clk}))
 	if err != nil {
@@ -205,7 +215,7 @@ func c14sNew(cfg c14sCfg, st *c14sStats, prefix []c14sOp, verifyPrefix bool) *c1
 	}
 	in.cm = cm
 	synctest.Wait() // both goroutines have created their mock tickers (next tick: 5 s)
-	in.dtag, err = cm.RegisterDecayingTag(c14sDecayName, c14sStep, connmgr.DecayFixed(5), connmgr.BumpSumBounded(0, 10))
+	in.dtag, err = cm.RegisterDecayingTag(c14sDecayName, c14sStep, connmgr.DecayFixed(cfg.decayBy()), connmgr.BumpSumBounded(0, 10))
 	if err != nil {
 		panic("c14s harness: RegisterDecayingTag: " + err.Error())
 	}
